@@ -166,6 +166,12 @@ KERNELS = [
          params=[("tree", "Tree"), ("uniset", "Opaque"), ("proba", "Int"), ("max_level", "Int")], ret="Tree", streams=True,
          node_preds={"FunctionalNode": "isFunctional"}, node_attrs={"_n_args": "nodeArity"},
          opaque_fn={"uniset._random_functional": ("randFunctional", ["Int"]), "uniset._random_terminal_or_ephemeral": ("randTerminal", [])}),
+    # ---- swap_mutation: the shuffled argument positions are `shuffler args_id k` (the result of sattolo_shuffle), the loop runs over the
+    #      pairs (old position, new position) in descending order of the new position
+    dict(name="swap_mutation", file="utils/mutations.py", func="swap_mutation",
+         params=[("tree", "Tree"), ("uniset", "Opaque"), ("proba", "Int"), ("max_leve", "Int")], ret="Tree", streams=True,
+         tree_calls={"get_args_id": "Tree_get_args_id", "subtree": "Tree_subtree", "concat": "Tree_concat"},
+         ext_fn={"sattolo_shuffle": ("shuffler", ["arr"])}),
     # ---- the donor strategies of differential evolution: straight-line vector arithmetic (translated over the ring Int: the
     #      float operations are read as ring operations) on rows chosen by random_sample, which is a parameter taking
     #      the call's actual arguments and the call's ordinal: `sample range_size quantity replace k`
@@ -192,7 +198,7 @@ LTY = {"Int": "Int", "Arr": "List Int", "Bool": "Bool", "Mat": "List (List Int)"
        "ArrSelf": "List (List Int)"}
 TREE_ATTR = {"_nodes": "nodes", "_n_args": "nargs"}
 DEFAULT = {"Int": "0", "Arr": "[]", "Bool": "false", "Mat": "[]"}
-RESERVED = ("_", "grower", "sampler", "wsampler", "end", "at", "from", "to", "in", "do", "then", "fun", "match", "with", "open", "by", "s", "us", "ns", "fuel", "rolls", "max", "min", "hi0", "samples", "self", "self_nodes", "self_nargs", "log", "stops", "kb", "value_ext", "tree")
+RESERVED = ("_", "shuffler", "grower", "sampler", "wsampler", "end", "at", "from", "to", "in", "do", "then", "fun", "match", "with", "open", "by", "s", "us", "ns", "fuel", "rolls", "max", "min", "hi0", "samples", "self", "self_nodes", "self_nargs", "log", "stops", "kb", "value_ext", "tree")
 
 
 class NotRecognised(Exception):
@@ -377,6 +383,12 @@ class Tr:
                 self.setlocal(st.target.id, self.ty(st.value))
             elif isinstance(st, ast.AugAssign) and isinstance(st.target, ast.Name):
                 self.setlocal(st.target.id, "Int")
+            elif isinstance(st, ast.For) and self.sorted_zip(st) is not None:
+                for el in st.target.elts:
+                    self.setlocal(el.id, "Int")
+                self.collect(st.body)
+                if st.orelse:
+                    raise NotRecognised("for-else")
             elif isinstance(st, ast.For):
                 if not isinstance(st.target, ast.Name):
                     raise NotRecognised("for target")
@@ -594,6 +606,24 @@ class Tr:
                 and isinstance(e.slice, ast.Constant) and e.slice.value == 0:
             return f"{self.id(e.value.id)}_0"
         return None
+
+    @staticmethod
+    def sorted_zip(st):
+        """`for a, b in sorted(zip(X, Y), key=lambda pair: -pair[1])` -> (X, Y), else None"""
+        it = st.iter
+        if not (isinstance(st.target, ast.Tuple) and len(st.target.elts) == 2 and all(isinstance(el, ast.Name) for el in st.target.elts)):
+            return None
+        if not (isinstance(it, ast.Call) and isinstance(it.func, ast.Name) and it.func.id == "sorted" and len(it.args) == 1
+                and len(it.keywords) == 1 and it.keywords[0].arg == "key"):
+            return None
+        z, key = it.args[0], it.keywords[0].value
+        if not (isinstance(z, ast.Call) and isinstance(z.func, ast.Name) and z.func.id == "zip" and len(z.args) == 2 and not z.keywords):
+            return None
+        if not isinstance(key, ast.Lambda) or len(key.args.args) != 1:
+            return None
+        if ast.unparse(key.body) != f"-{key.args.args[0].arg}[1]":
+            return None
+        return z.args[0], z.args[1]
 
     def static_true(self, test):
         """`len(P) == 1` for a parameter P declared as a one-element list of trees"""
@@ -1182,6 +1212,18 @@ class Tr:
             head = f"{pad}  let s := {{ s with cnt := false" + (f", err := s.err || {ob}" if ob != "false" else "") + " }\n"
             L.append(f"(Imp.whileN fuel (fun s => (! s.brk) && {self.B(st.test, env)}) (fun s =>\n{head}{self.block(st.body, ind + 1)}) s)")
             L.append("{ s with brk := false, cnt := false" + (f", err := s.err || {ob}" if ob != "false" else "") + " }")
+            return L
+        if isinstance(st, ast.For) and self.sorted_zip(st) is not None:
+            X, Y = self.sorted_zip(st)
+            if self.ty(X) != "Arr" or self.ty(Y) != "Arr":
+                raise NotRecognised("zip of non-arrays")
+            env = self.pre([X, Y], L)
+            ta, tb = self.tmp("Arr"), self.tmp("Arr")
+            L.append(f"{{ s with {ta} := Imp.sortDescSndA {self.E(X, env)} {self.E(Y, env)}, {tb} := Imp.sortDescSndB {self.E(X, env)} {self.E(Y, env)} }}")
+            a, b = (self.id(el.id) for el in st.target.elts)
+            body = self.block(st.body, ind + 1)
+            L.append(f"(Imp.forRange (0 : Int) (Imp.leni s.{ta}) (fun s => s.brk) (fun i s =>\n{pad}  let s := {{ s with {a} := Imp.geti s.{ta} i, {b} := Imp.geti s.{tb} i }}\n{body}) s)")
+            L.append("{ s with brk := false }")
             return L
         if isinstance(st, ast.For):
             v = self.id(st.target.id)
